@@ -442,10 +442,15 @@ func (n numDatum) Literal(context string) string {
 		return "Infinity"
 	case math.IsInf(n.num, -1):
 		return "-Infinity"
+	case math.IsNaN(n.num):
+		return "NaN"
 	}
 
-	// ... then the easy ones.
-	return fmt.Sprintf("%v", n.num)
+	// ... then the easy ones.  XPATH 1.0 section 4.2: decimal notation with
+	// no exponent, with as many digits as are needed to uniquely distinguish
+	// the number from all other IEEE 754 values ('%v' switches to exponent
+	// notation, eg 1e+06 or 1e-05).
+	return strconv.FormatFloat(n.num, 'f', -1, 64)
 }
 
 func (n numDatum) Nodeset(context string) []xutils.XpathNode {
